@@ -135,9 +135,26 @@ class R:
 _PROP = None
 
 
-def _init_worker(prop_name: str) -> None:
+def _orphan_watchdog(parent: int) -> None:
+    """A pool worker whose parent was killed (time limit, Ctrl-C of the runner) must not
+    keep exploring: it would hold cores and memory for hours and its results go nowhere."""
+    import threading
+
+    def watch() -> None:
+        while True:
+            time.sleep(5.0)
+            if os.getppid() != parent:
+                os._exit(3)
+
+    threading.Thread(target=watch, name="verif-orphan-watchdog", daemon=True).start()
+
+
+def _init_worker(prop_name: str, parent: int | None = None) -> None:
     global _PROP
     from . import env
+
+    if parent is not None:
+        _orphan_watchdog(parent)
 
     env.setup()
     _PROP = importlib.import_module(prop_name)
@@ -234,7 +251,7 @@ def run_cases(prop_name: str, cases: list, jobs: int, seed: int, progress=None) 
     chunks = [c for c in chunks if c]
     ctx = mp.get_context("spawn")
     t0 = time.time()
-    with ctx.Pool(min(jobs, len(chunks)), initializer=_init_worker, initargs=(prop_name,)) as pool:
+    with ctx.Pool(min(jobs, len(chunks)), initializer=_init_worker, initargs=(prop_name, os.getpid())) as pool:
         done = 0
         for res in pool.imap_unordered(_run_chunk, chunks):
             total.merge(res)
